@@ -114,7 +114,7 @@ class Recorder:
         return r
 
     def obligation(self, label, assumptions, negated_goal, key=None, replay=None, timeout_ms=None,
-                   describe=None, twin=False, syntactic=False):
+                   describe=None, twin=False, syntactic=False, seed_names=None, seed_from=None):
         """Discharge one obligation: assumptions /\\ negated_goal must be unsat.
 
         ``replay``: callable model -> JSON-able payload for the concrete replay.
@@ -125,6 +125,11 @@ class Recorder:
             negated_goal = z3.BoolVal(negated_goal)
         want_smt = len(self.samples) < 2
         v = refute(label, assumptions, negated_goal, timeout_ms=timeout_ms, want_smt=want_smt)
+        if v.status == "unknown" and seed_names:
+            # model search with the inputs fixed to concrete rationals (a sat answer is a genuine model of the full query)
+            v2 = self._seeded(label, assumptions, negated_goal, seed_names, seed_from)
+            if v2 is not None:
+                v = v2
         rec = {"label": label, "verdict": v.status, "time_s": round(v.dt, 4)}
         if syntactic:
             rec["syntactic"] = True  # normal form of code - ref is the zero polynomial: independent of the assumptions
@@ -155,6 +160,37 @@ class Recorder:
             if self.fail_fast:
                 raise StopCase()
         return v
+
+    def _seeded(self, label, assumptions, negated_goal, names, seed_from, tries=6):
+        from .core import Verdict
+        block = []
+        t0 = time.time()
+        for attempt in range(tries):
+            s = z3.Solver()
+            s.set("timeout", 4000)
+            for a in (seed_from if seed_from is not None else []):
+                s.add(a)
+            for b in block:
+                s.add(b)
+            for v in names.values():
+                s.add(v >= -4, v <= 4)
+            if str(s.check()) != "sat":
+                return None
+            m = s.model()
+            fix = [v == m.eval(v, model_completion=True) for v in names.values()]
+            s2 = z3.Solver()
+            s2.set("timeout", 6000)
+            for a in assumptions:
+                s2.add(a)
+            s2.add(negated_goal)
+            for f in fix:
+                s2.add(f)
+            r = str(s2.check())
+            if r == "sat":
+                core.STATS.note("sat", time.time() - t0)
+                return Verdict(label, "sat", time.time() - t0, s2.model())
+            block.append(z3.Not(z3.And(*fix)))
+        return None
 
     def candidate(self, key, label, payload=None, describe=None):
         """A violation candidate found without a solver model (e.g. an exception escaping mici)."""
